@@ -4,8 +4,10 @@ package props
 
 import (
 	"fmt"
+	"mc/report"
 	"os"
 	"os/exec"
+	"path/filepath"
 	"regexp"
 	"strings"
 	"time"
@@ -129,7 +131,7 @@ var frameRe = regexp.MustCompile(`\n  ((?:free5gclib|tglib|stgutg)[^\s(]*)\(`)
 // c20race runs the free-running pass (a separate binary built with -race) and turns race reports into violations.
 func c20race(ctx *Ctx) {
 	r := ctx.R
-	bin := "/verif/.build/bin/mcheck20race"
+	bin := filepath.Join(report.BuildDir, "bin", "mcheck20race")
 	if _, err := os.Stat(bin); err != nil {
 		r.HarnessError("race binary missing: " + err.Error())
 		return
@@ -137,7 +139,7 @@ func c20race(ctx *Ctx) {
 	for _, g := range []int{2, 8, 64} {
 		cmd := exec.Command(bin, "-g", fmt.Sprint(g), "-rounds", "200")
 		cmd.Env = append(os.Environ(), "GORACE=halt_on_error=0")
-		cmd.Dir = "/verif/.build"
+		cmd.Dir = report.BuildDir
 		out, err := cmd.CombinedOutput()
 		reports := raceRe.FindAllString(string(out), -1)
 		seen := map[string]bool{}
